@@ -88,6 +88,8 @@ pub fn convolve_modn(
         (0..=512, 0..=524288) => (16384, 3, 17),
         (nbits, _) => panic!("cannot fit size {size} convolution with {nbits} bit coefficients"),
     };
+    #[cfg(yamaquasi_verif)]
+    crate::verif::ev(|| format!("\"op\":\"conv_dispatch\",\"bits\":{},\"size\":{},\"fsize\":{},\"logpack\":{},\"stride\":{}", zn.n.bits(), size, fsize, logpack, stride));
     assert!(zn.n.bits() <= 500);
     match fsize {
         1024 => _convolve_modn::<16>(zn, size, logpack, stride, p1, p2, res, offset),
